@@ -22,8 +22,20 @@ def lab(n):
     return os.path.join(BASE, "rqv-lab-%s" % n)
 
 def sh(cmd, cwd=None, env=None, timeout=None):
-    p = subprocess.run(cmd, cwd=cwd, env=env, shell=isinstance(cmd, str), stdout=subprocess.PIPE, stderr=subprocess.STDOUT, text=True, errors="replace", timeout=timeout)
-    return p.returncode, p.stdout
+    # own process group, so that a timeout also ends the grandchildren (a mutant that hangs the library
+    # would otherwise leave its monitor process spinning)
+    import signal
+    p = subprocess.Popen(cmd, cwd=cwd, env=env, shell=isinstance(cmd, str), stdout=subprocess.PIPE, stderr=subprocess.STDOUT, text=True, errors="replace", start_new_session=True)
+    try:
+        out, _ = p.communicate(timeout=timeout)
+    except subprocess.TimeoutExpired:
+        try:
+            os.killpg(p.pid, signal.SIGKILL)
+        except ProcessLookupError:
+            pass
+        p.communicate()
+        raise
+    return p.returncode, out
 
 def sync(n):
     d = lab(n)
